@@ -4,6 +4,7 @@
 -/
 import Fca.Lemmas.MVContext
 import Fca.Lemmas.MVBinarize
+import Fca.Lemmas.MVLattice
 namespace Fca.C14
 open Fca Fca.MV
 
@@ -96,75 +97,71 @@ theorem binarize_same_closed_sets (K : MVCtx) (hwf : K.WF) (hc : K.cols ≠ []) 
     rw [K.cl_eq, K.clSpec_nil_of_bottomOK hb]; congr 1
     exact (K.closure_binTable_nil hwf hc).symm
 
-/-! ## lattice level -/
+/-! ## lattice level
 
-/-- Lattice exactness, PARTIAL.  Hypotheses beyond the property: `BottomOK K` (finding D17) and `FcaExact`
-    for the extents `exts` that CbO lists on the binarised table (property C02; not re-proved here).
-    Conclusion: the last stage of both binarising shapes of `close_by_one` — `PatternConcept.from_objects` on
-    each listed extent — never raises and returns pairwise different concepts whose extents are exactly the
-    closed object sets of the many-valued context, each carrying `intention_i(extent)`.
-    Missing for the full statement: (1) the completeness/soundness proof of the two worklist loops
-    (`cboFbLoop` on the binarised table — C02's theorem — and `cboObjLoop` on descriptions, for which only the
-    correspondence check and `not_BottomOK_witness` speak); (2) the cover relation is delegated to
-    `order_extents_comparison` (caspailleur), modelled by its contract. -/
-theorem mv_lattice_exact_partial (K : MVCtx) (hwf : K.WF) (hc : K.cols ≠ []) (hb : K.BottomOK)
-    (exts : List (List Nat)) (hex : FcaExact K.binTable exts) :
-    ∃ pcs, MVCtx.mapFromObjects K exts = .ok pcs ∧
-      pcs.map (·.extent) = exts ∧ (pcs.map (·.extent)).Nodup ∧
-      (∀ pc ∈ pcs, pc.intent = K.intentionI pc.extent ∧ K.cl pc.extent = .ok pc.extent) ∧
-      (∀ S, S ∈ pcs.map (·.extent) ↔ S ∈ K.closedSets) := by
-  have hfix : ∀ E ∈ exts, K.clSpec E = E := fun E hE => by
-    obtain ⟨B, hB⟩ := (hex.2 E).mp hE
-    exact (concept_extent_fix K hwf hc hb E B hB).1
-  have hmap : (exts.map fun E => (⟨E, K.intentionI E⟩ : MVCtx.PC)).map (·.extent) = exts := by
-    rw [List.map_map]
-    exact List.map_id'' (fun _ => rfl) _
-  refine ⟨_, mapFromObjects_fix K exts hfix, hmap, by rw [hmap]; exact hex.1, ?_, ?_⟩
-  · intro pc hpc
-    obtain ⟨E, hE, rfl⟩ := List.mem_map.mp hpc
-    exact ⟨rfl, by rw [K.cl_eq, hfix E hE]⟩
-  · intro S
-    rw [hmap, hex.2 S]
-    exact concept_extents_eq_closedSets K hwf hc hb S
+  `BottomOK K` ("the closure of the empty object set, as the code computes it, lies in every closed set") is a
+  hypothesis of the lattice-level theorems **by design**: it is the decidable side condition that separates the
+  tables on which the pinned convention `AttributePS.intention_i([]) is False` (finding D17) is harmless from
+  those on which the unrestricted statement is false (`not_BottomOK_witness`).  It holds whenever the context
+  has an `IntervalPS`/`IntervalNumpyPS` column or no `AttributePS` column. -/
 
-example : ∃ (K : MVCtx) (exts : List (List Nat)), K.WF ∧ K.cols ≠ [] ∧ K.BottomOK ∧ FcaExact K.binTable exts ∧
-    2 ≤ K.nObjects ∧ 2 ≤ K.cols.length :=
-  ⟨⟨[.set [[0], [], [0, 1]], .attr [false, true, true]], 3, ["a", "b", "c"]⟩, _,
-   by decide, by decide, by decide, fcaExact_allConcepts _, by decide, by decide⟩
+/-- `BottomOK` is exactly "the code's closure of the empty set is the least closed set (the extent of the bottom
+    description)", and it holds for every context without an `AttributePS` column and for every context with
+    an interval column. -/
+theorem bottomOK_characterised (K : MVCtx) :
+    (K.BottomOK ↔ K.cl [] = .ok K.extBottom) ∧
+    ((∀ c ∈ K.cols, c.isAttr = false) → K.BottomOK) ∧
+    ((∃ c ∈ K.cols, c.isInterval = true) → K.BottomOK) := by
+  refine ⟨?_, K.bottomOK_of_no_attr, K.bottomOK_of_interval⟩
+  rw [K.bottomOK_iff, K.cl_eq]
+  constructor
+  · intro h; rw [h]
+  · intro h; injection h
 
-/-- Path agreement, PARTIAL.  Under `BottomOK K`: whatever order and shape (objects ≤ / > binary attributes,
-    i.e. CbO on the binarised context or on its transpose) the formal-context miner lists the concept
-    extents of the binarised table in (`FcaExact`, property C02), the pattern concepts built from them are
-    the same set, without repetition.
-    Missing for the full statement: the object-wise path (`cboObjLoop`, CbO directly on descriptions) is
-    not covered by a theorem — its agreement with the binarising path on the explored inputs is established
-    by the correspondence check only, and `not_BottomOK_witness` shows it fails without `BottomOK`. -/
-theorem paths_agree_partial (K : MVCtx) (hwf : K.WF) (hc : K.cols ≠ []) (hb : K.BottomOK)
-    (e₁ e₂ : List (List Nat)) (h₁ : FcaExact K.binTable e₁) (h₂ : FcaExact K.binTable e₂) :
-    ∃ p₁ p₂, MVCtx.mapFromObjects K e₁ = .ok p₁ ∧ MVCtx.mapFromObjects K e₂ = .ok p₂ ∧
-      (∀ pc, pc ∈ p₁ ↔ pc ∈ p₂) ∧ (p₁.map (·.extent)).Nodup ∧ (p₂.map (·.extent)).Nodup := by
-  obtain ⟨p₁, hp₁, hm₁, hn₁, hi₁, hs₁⟩ := mv_lattice_exact_partial K hwf hc hb e₁ h₁
-  obtain ⟨p₂, hp₂, hm₂, hn₂, hi₂, hs₂⟩ := mv_lattice_exact_partial K hwf hc hb e₂ h₂
-  refine ⟨p₁, p₂, hp₁, hp₂, ?_, hn₁, hn₂⟩
-  have key : ∀ (p q : List MVCtx.PC),
-      (∀ pc ∈ p, pc.intent = K.intentionI pc.extent ∧ K.cl pc.extent = .ok pc.extent) →
-      (∀ S, S ∈ p.map (·.extent) ↔ S ∈ K.closedSets) →
-      (∀ pc ∈ q, pc.intent = K.intentionI pc.extent ∧ K.cl pc.extent = .ok pc.extent) →
-      (∀ S, S ∈ q.map (·.extent) ↔ S ∈ K.closedSets) → ∀ pc, pc ∈ p → pc ∈ q := by
-    intro p q hip hsp hiq hsq pc hpc
-    have : pc.extent ∈ q.map (·.extent) := (hsq _).mpr ((hsp _).mp (List.mem_map.mpr ⟨pc, hpc, rfl⟩))
-    obtain ⟨pc', hpc', he⟩ := List.mem_map.mp this
-    have e1 := (hip pc hpc).1
-    have e2 := (hiq pc' hpc').1
-    have : pc' = pc := by
-      cases pc; cases pc'
-      simp only at he e1 e2
-      subst he
-      simp only [MVCtx.PC.mk.injEq, true_and]
-      rw [e1, e2]
-    rw [← this]; exact hpc'
-  intro pc
-  exact ⟨key p₁ p₂ hi₁ hs₁ hi₂ hs₂ pc, key p₂ p₁ hi₂ hs₂ hi₁ hs₁ pc⟩
+/-- Lattice exactness (all three mining paths).  For every many-valued context with `BottomOK`, every
+    threshold `n_projections_to_binarize` — hence whichever of the object-wise path (CbO directly on
+    descriptions), the binarising path, or the binarising path on the transposed binarised context
+    `close_by_one` takes — and every fuel from the closed form `closeByOneFuel` (`(k+1)^(k+1)+1`, `k` the number
+    of objects the worklist runs over) on:  `close_by_one` terminates without raising, `ConceptLattice
+    .from_context` accepts its result (no extent is repeated, so the `KeyError` of finding D17 cannot occur), and
+    the concepts are exact (`ExactMV`): every closed object set exactly once and nothing else, each with
+    `intention_i(extent)` — its most specific description by `mv_closure_laws`.
+    The binarising paths rest on property C02's machine analysis for `cboFbarray`; the object-wise path
+    instantiates the same abstract worklist machine with the many-valued closure `ext ∘ int`
+    (`Lemmas/MVLattice.hyp_mv`).
+    Not in this statement: the cover relation ("ordered by inclusion") is computed from the extents by
+    `order_extents_comparison` (caspailleur), which the model takes by its contract; the correspondence check
+    compares the implementation's `children_dict` with the covers of inclusion (`Spec.lowerCovers`). -/
+theorem mv_lattice_exact (K : MVCtx) (hwf : K.WF) (hn : 1 ≤ K.nObjects) (hc : K.cols ≠ []) (hb : K.BottomOK)
+    (thr fuel : Nat) (hf : K.closeByOneFuel thr ≤ fuel) :
+    ∃ pcs, K.closeByOne thr fuel = .ok pcs ∧ K.latticeConcepts thr fuel = .ok pcs ∧ MVCtx.ExactMV K pcs :=
+  K.closeByOne_exact hwf hn hc hb thr fuel hf
+
+/-- Path agreement (all three paths).  Under `BottomOK`, for any two thresholds — so for any two of the
+    object-wise path, the binarising path and its transposed shape — the two lattices hold the same pattern
+    concepts: every concept of one has a concept of the other with the same extent (as a set; the object-wise
+    path lists extents in generation order) and an equivalent description (`DescEquiv`: equal interval and
+    flag values, set values equal as sets).  Together with `ExactMV.distinct` of both sides this is a bijection. -/
+theorem paths_agree (K : MVCtx) (hwf : K.WF) (hn : 1 ≤ K.nObjects) (hc : K.cols ≠ []) (hb : K.BottomOK)
+    (thr₁ thr₂ fuel₁ fuel₂ : Nat) (hf₁ : K.closeByOneFuel thr₁ ≤ fuel₁) (hf₂ : K.closeByOneFuel thr₂ ≤ fuel₂) :
+    ∃ p₁ p₂, K.latticeConcepts thr₁ fuel₁ = .ok p₁ ∧ K.latticeConcepts thr₂ fuel₂ = .ok p₂ ∧
+      (∀ pc ∈ p₁, ∃ pc' ∈ p₂, MVCtx.SetEqL pc.extent pc'.extent ∧ DescEquiv pc.intent pc'.intent) ∧
+      (∀ pc ∈ p₂, ∃ pc' ∈ p₁, MVCtx.SetEqL pc.extent pc'.extent ∧ DescEquiv pc.intent pc'.intent) := by
+  obtain ⟨p₁, _, h₁, e₁⟩ := K.closeByOne_exact hwf hn hc hb thr₁ fuel₁ hf₁
+  obtain ⟨p₂, _, h₂, e₂⟩ := K.closeByOne_exact hwf hn hc hb thr₂ fuel₂ hf₂
+  exact ⟨p₁, p₂, h₁, h₂, K.exactMV_agree p₁ p₂ e₁ e₂, K.exactMV_agree p₂ p₁ e₂ e₁⟩
+
+/-- the hypotheses are satisfiable with all three paths occurring: a 3×2 table (SetPS, AttributePS) with
+    `BottomOK`; threshold 0 takes the object-wise path, 1000 the binarising one; a tall one-column table takes
+    the transposed shape -/
+example : ∃ K : MVCtx, K.WF ∧ 1 ≤ K.nObjects ∧ K.cols ≠ [] ∧ K.BottomOK ∧
+    K.choosePath 0 = .objectwise ∧ K.choosePath 1000 = .binDirect :=
+  ⟨⟨[.set [[0], [], [0, 1]], .attr [false, true, true]], 3, ["a", "b", "c"]⟩,
+   by decide, by decide, by decide, by decide, by decide, by decide⟩
+
+example : ∃ K : MVCtx, K.WF ∧ 1 ≤ K.nObjects ∧ K.cols ≠ [] ∧ K.BottomOK ∧ K.choosePath 1000 = .binTransposed :=
+  ⟨⟨[.interval [(1, 1), (1, 1), (1, 1)]], 3, ["a", "b", "c"]⟩,
+   by decide, by decide, by decide, by decide, by decide⟩
 
 deriving instance DecidableEq for Except
 
